@@ -162,6 +162,12 @@ func (e *encoder) structBody(st *Struct, v *StructVal) error {
 		}
 		if e.marks != nil {
 			*e.marks = append(*e.marks, Mark{Off: len(e.buf), Kind: MarkField, Path: st.Name + "." + f.Name})
+			// an int32 that a later length-field-minus field refers to is a length
+			for _, o := range st.Fields {
+				if o.Type.Kind == KLengthFieldMinus && o.Type.LenField == f.Name && f.Type.Kind == KInt32 {
+					*e.marks = append(*e.marks, Mark{Off: len(e.buf), Width: 4, Kind: MarkLen32})
+				}
+			}
 		}
 		if err := e.value(f.Type, fv, st, v); err != nil {
 			return fmt.Errorf("%s.%s: %w", st.Name, f.Name, err)
